@@ -77,6 +77,10 @@ def check_day(o):
              'YEAR(%s)' % isot, 'MONTH(%s)' % isot, 'DAY(%s)' % isot, 'HOUR(%s)' % isot, 'MINUTE(%s)' % isot, 'SECOND(%s)' % isot,
              'WEEKDAY(%s)' % D, 'WEEKDAY(%s,1)' % D, 'WEEKDAY(%s,2)' % D, 'WEEKDAY(%s,3)' % D, 'WEEKDAY(%s,2)' % iso]
     want = [d.year, d.month, d.day] * 3 + [h, mi, s, w1, w1, wd + 1, wd, wd + 1]
+    # ISO text with a UTC designator: the components are the ones written (an offset is not a reason to shift the clock)
+    isoz = isot[:-1] + ['Z', '+00:00', '+02:00', '-05:00', '+05:30', '-11:00', '+14:00'][o % 7] + '"'
+    parts += ['YEAR(%s)' % isoz, 'MONTH(%s)' % isoz, 'DAY(%s)' % isoz, 'HOUR(%s)' % isoz, 'MINUTE(%s)' % isoz, 'SECOND(%s)' % isoz, 'WEEKDAY(%s,2)' % isoz]
+    want += [d.year, d.month, d.day, h, mi, s, wd + 1]
     if o >= rd.MAR1_ORD:
         k = o - rd.EPOCH_ORD
         parts += ['YEAR(%d)' % k, 'MONTH(%d)' % k, 'DAY(%d)' % k, 'WEEKDAY(%d,3)' % k]
